@@ -18,6 +18,23 @@ From BB Require Import BN Brute SpaceFacts TrapFacts PercolateFacts AttractorFac
   Strict PetriNet Control Meta FilterFacts PetriNetFacts TrappistFacts DiagramStruct DiagramSem1 DiagramCache
   DiagramDepth DiagramComplete Termination ControlFacts MetaFacts Candidates StrictFacts MinExpandFacts CandidatesFacts SymbolicTest SymbolicTestFacts Signed ReductionFacts ControlFacts2 Main Blocks BlocksFacts ObsFacts OwnerFacts CandidatesTerm
   PartialOwner BlockMath BlockComplete ASeeds ASeedsFacts LogChecks SkipRule SkipRuleFacts Names NamesFacts Perm PermFacts SCC SCCFacts SCCStruct ControlFacts3 SCCTerm FilterSym Main2 StrategyFacts ControlFacts4 SkipRuleFacts2 SCCComplete SCCAttr BlockComplete2 ControlFacts5 Iso SkipSem ControlFacts6.
+From BB Require Import PyLib PyLibSd PySrcSdBase PySrcSd PySrcSdFacts PyLibSd PySrcSdBase PySrcSdTarget PySrcSdTargetFacts PyLib PyLibSd PyLibCore PyLibSd2 PySrcSdBase PySrcSdMin PySrcSdMinFacts Candidates Blocks ASeeds PySrcSdASeeds PySrcSdASeedsFacts PySrcTermFacts.
+
+(* the loops of the strategy drivers AS WRITTEN IN THE SOURCE (generated functions, public wrappers included) end within the fuel bound of the model *)
+Theorem C13_source_expand_bfs_terminates : forall (fuel : nat) (N : net) (cfg : config) (d : sd) (start lvl sz : option nat), SWF N d -> valid_start d start = true -> max_nodes N + 2 <= fuel -> snd (py_api_expand_bfs fuel N cfg d start lvl sz) <> RFuel.
+Proof. exact py_expand_bfs_terminates. Qed.
+
+Theorem C13_source_expand_dfs_terminates : forall (fuel : nat) (N : net) (cfg : config) (d : sd) (start stk sz : option nat), SWF N d -> valid_start d start = true -> 2 * max_nodes N + 3 <= fuel -> snd (py_api_expand_dfs fuel N cfg d start stk sz) <> RFuel.
+Proof. exact py_expand_dfs_terminates. Qed.
+
+Theorem C13_source_expand_to_target_terminates : forall (fuel : nat) (N : net) (cfg : config) (d : sd) (t : space) (sz : option nat), SWF N d -> max_nodes N + 2 <= fuel -> snd (py_api_expand_to_target fuel N cfg d t sz) <> RFuel.
+Proof. exact py_expand_to_target_terminates. Qed.
+
+Theorem C13_source_expand_minimal_spaces_terminates : forall (fuel : nat) (N : net) (cfg : config) (d : sd) (start sz : option nat) (skip : bool) (tape : list space), SWF N d -> TrapNodes N d -> EdgeStrict d -> valid_start d start = true -> perm_of tape (min_traps_b N (n_space (get d (start_of start)))) = true -> 2 * max_nodes N + 3 <= fuel -> snd (py_api_expand_minimal_spaces fuel N cfg d tape start sz skip) <> RFuel.
+Proof. exact py_expand_minimal_spaces_terminates. Qed.
+
+Theorem C13_source_expand_attractor_seeds_terminates : forall (fuel : nat) (N : net) (cfg : config) (d : sd) (sz : option nat) (min_tape : list space) (tape : list (list nat)), SWF N d -> TrapNodes N d -> EdgeStrict d -> perm_of min_tape (min_traps_b N (n_space (get d 0))) = true -> 2 * max_nodes N + 3 <= fuel -> snd (py_api_expand_attractor_seeds fuel N cfg d min_tape tape sz) <> RFuel.
+Proof. exact py_expand_attractor_seeds_terminates. Qed.
 
 Theorem C13_size_bound : forall (N : net) (d : sd), SWF N d -> size d <= max_nodes N.
 Proof. exact size_bound. Qed.
@@ -96,6 +113,11 @@ Proof. exact expand_scc_EdgeStrict. Qed.
 Theorem C13_symbolic_filter_total : forall (fuel : nat) (N : net) (S : space) (seeds_only : bool) (motifs : list (list (option bool))) (cands : list state) (tapes : sym_tape), trap_space N S -> (forall M : list (option bool), In M motifs -> length M = nvars N /\ subspace M S = true) -> (forall c : state, In c cands -> in_space c S = true) -> NoDup cands -> symbolic_test_fuel S <= fuel -> compute_attractors_sym fuel N S seeds_only motifs cands tapes <> None.
 Proof. exact compute_attractors_sym_total. Qed.
 
+Print Assumptions C13_source_expand_bfs_terminates.
+Print Assumptions C13_source_expand_dfs_terminates.
+Print Assumptions C13_source_expand_to_target_terminates.
+Print Assumptions C13_source_expand_minimal_spaces_terminates.
+Print Assumptions C13_source_expand_attractor_seeds_terminates.
 Print Assumptions C13_size_bound.
 Print Assumptions C13_bfs_terminates.
 Print Assumptions C13_dfs_terminates.
